@@ -9,6 +9,7 @@ mod codec;
 mod logfile;
 mod meta;
 mod node;
+mod ownership;
 mod registry;
 mod seq;
 mod sm;
@@ -35,6 +36,7 @@ fn main() {
         ("replay", "registry") => registry::replay(&args[3..]),
         ("record", "seqgroup") => seq::record_seqgroup(&args[3..]),
         ("record", "seqnode") => seq::record_seqnode(&args[3..]),
+        ("replay", "ownership") => ownership::replay(&args[3..]),
         ("replay", "meta") => meta::replay(&args[3..]),
         ("node", "run") => node::main_node(&args[3..]),
         _ => Err(anyhow::anyhow!("unknown command {} {}", args[1], args[2])),
